@@ -350,6 +350,11 @@ fn gen(rng: &mut Rng, n: usize) -> Vec<Case> {
             }
         }
     }
+    // incompressible data: the compressed stream itself crosses the writer's 32 KiB output buffer
+    for (i, &len) in [32740usize, 32768, 32800, 40000, 66000].iter().enumerate() {
+        out.push(w_case("buf", "blob", len as u64, rng.bytes(len)));
+        out.push(w_case(["stream", "typed"][i % 2], "blob", len as u64, rng.bytes(len)));
+    }
     // declared size differs from what is streamed
     for (decl, len) in [(5u64, 6usize), (6, 5), (0, 1), (1, 0), (100, 200), (200, 100), (60, 70), (1, 100), (32757, 32758), (70000, 69999)] {
         out.push(w_case("stream", "blob", decl, body(rng, len)));
@@ -766,7 +771,8 @@ fn prop(c: &Case) -> Verdict {
                 let head = do_header(&st, &id);
                 let consistent = declared == data.len() as u64;
                 if consistent {
-                    let git = git_cat(&hexs(&want_id));
+                    // (asked twice: the first answer is lost when the child had to be restarted)
+                    let git = git_cat(&hexs(&want_id)).or_else(|| git_cat(&hexs(&want_id)));
                     let kind = kind_of(kind_name);
                     if found != Ok(Some((kind, data.to_vec()))) {
                         return Verdict::fail("readback-differs", show_reads(&found, &head));
@@ -842,7 +848,7 @@ fn prop(c: &Case) -> Verdict {
                                     return Verdict::fail("valid-header-misread", shown);
                                 }
                                 if sha1(&[&out]) == idb {
-                                    match git_cat(&hexs(idb)) {
+                                    match git_cat(&hexs(idb)).or_else(|| git_cat(&hexs(idb))) {
                                         Some((k, d)) if k.as_bytes() == kind_name && d == out[hs..] => {}
                                         other => {
                                             return Verdict::fail(
